@@ -183,11 +183,33 @@ def run_case(case, ctx, st):
             df = float(rng.choice([0.5, 1.0, 2.5, 5.0, 12.0, 30.0]))
             loc = rng.normal(scale=3.0, size=d)
             S = spd(rng, d)
+            singular = d >= 2 and rng.random() < 0.35
+            if singular:
+                # positive semi-definite but singular scale (documented as legal): samples live in loc + range(S)
+                r = int(rng.integers(1, d))
+                B = rng.normal(size=(d, r))
+                S = B @ B.T
+                ctx.count("student_singular_scale_calls")
             ctx.case = dict(case, generator="multivariate_student_t", d=d, df=df, n=n, loc=loc, scale=S.tolist(), rs=seed)
             X = twice(lambda: multivariate_student_t(n, loc.tolist(), S, df=df, random_state=seed))
             ctx.count("student_calls")
             if X.shape != (n, d):
                 ctx.violation("shapes", "student-shape", observed=list(X.shape), expected=[n, d])
+                return
+            if singular:
+                w, V = np.linalg.eigh(S)
+                keep = w > 1e-9 * w.max()
+                Y = (X - loc) @ V
+                off = float(np.max(np.abs(Y[:, ~keep]))) if np.any(~keep) else 0.0
+                scale_mag = math.sqrt(float(w.max()))
+                # heavy tails: the largest of n draws can be huge, so the bound is relative to the largest coordinate seen
+                if off > 1e-6 * max(scale_mag, float(np.max(np.abs(Y[:, keep])))):
+                    ctx.violation("statistics", "student-t/samples-leave-range-of-scale", observed={"max_off_range": off}, expected="~0")
+                Z = Y[:, keep] / np.sqrt(w[keep])
+                ks_marginals(ctx, Z, df, "principal coordinates of a singular scale", "student-t-marginal-not-t")
+                d = int(keep.sum())
+                ctx.distinct(which, "singular", str(ctx.case.get("scale")))
+                ctx.sample({k: v for k, v in ctx.case.items() if k in ("generator", "d", "n", "df")})
                 return
             L = np.linalg.cholesky(S)
             Z = np.linalg.solve(L, (X - loc).T).T
